@@ -21,7 +21,10 @@ impl ConditionTimer {
             timer.relative_speed()
         };
 
-        self.duration += timer.delta_secs() / scale;
+        // With zero speed no time has passed, avoid `0.0 / 0.0`.
+        if scale != 0.0 {
+            self.duration += timer.delta_secs() / scale;
+        }
     }
 
     pub fn reset(&mut self) {
